@@ -40,11 +40,12 @@ func init() {
 			}
 			return []runner.Phase{
 				{Name: "close-at-wake", Variant: "race", Cases: cw, Run: closeAtWake, CaseTimeout: 60 * time.Second, Required: []string{"close_at_wake_cases", "close_reached_stop_while_parked"}},
-				{Name: "close-parked", Variant: "race", Cases: cw, Run: closeParked, CaseTimeout: 60 * time.Second, Required: []string{"close_parked_cases"}},
+				{Name: "close-parked", Variant: "race", Cases: cw, Run: closeParked, CaseTimeout: 60 * time.Second, Required: []string{"close_parked_cases", "activity_parked:control-heartbeat-unanswered", "activity_parked:control-reconnect-waiting-for-system.local", "activity_parked:refill-failed-waiting-for-conviction"}},
 				{Name: "close-vs-reconnect", Variant: "race", Cases: n * 2, Run: c17closeReconnect, CaseTimeout: 40 * time.Second, Required: []string{"closes_checked"}},
 				{Name: "scenarios", Variant: "race", Cases: n, Run: c17case, CaseTimeout: 60 * time.Second,
 					Required: []string{"fill_storms", "api_mixes", "close_races", "uneven_fills", "closes_checked", "pool_samples", "control_loss_before_close"}},
 				{Name: "debouncer-stress", Variant: "race", Cases: cw, Run: c17debouncerStress, CaseTimeout: 60 * time.Second, Required: []string{"debouncer_refresh_requests", "debouncer_refreshes_run", "debouncer_single_requester_rounds"}},
+				{Name: "node-returns", Variant: "race", Cases: cw, Run: c17nodeReturns, CaseTimeout: 120 * time.Second, Required: []string{"node_return_rounds", "coinciding_up_triggers", "pool_removals_checked"}},
 				{Name: "refresh-storm", Variant: "race", Cases: cw, Run: c17refreshStorm, CaseTimeout: 60 * time.Second, Required: []string{"refresh_storms", "ring_refreshes_requested"}},
 			}
 		},
@@ -827,5 +828,119 @@ func c17debouncerStress(c *runner.Ctx, i int) {
 	}
 	if atomic.LoadInt64(&runs) == 0 {
 		c.Violation("C17:refresh-never-ran", fmt.Sprintf("%d immediate refresh requests were answered but the refresh function never ran", atomic.LoadInt64(&asked)), nil)
+	}
+}
+
+// c17nodeReturns: a node goes down (its pool is removed and closed) and comes back, noticed by several parts of the
+// driver at the same moment (UP event, reconnect ticker, control-connection reconnect: all end in
+// policyConnPool.addHost for a host that has no pool). However many triggers coincide, the host gets one pool of
+// NumConns connections; when it goes down again, and at Close, none of its connections stays open.
+func c17nodeReturns(c *runner.Ctx, i int) {
+	r := c.Rng
+	nn := 2 + r.Intn(2)
+	cl := fakenode.NewCluster(nn)
+	cfg := newCfg(cl, 3+i%3)
+	cfg.NumConns = 1 + r.Intn(3)
+	cfg.Timeout = 500 * time.Millisecond
+	cfg.ConnectTimeout = 500 * time.Millisecond
+	if r.Intn(2) == 0 {
+		cfg.ReconnectInterval = time.Duration(1+r.Intn(3)) * time.Millisecond // the reconnect ticker is one more trigger
+	}
+	var sess *gocql.Session
+	var err error
+	c.Guard("CreateSession", func() { sess, err = cfg.CreateSession() })
+	if err != nil {
+		c.Inconclusive("c17-session", err.Error())
+		return
+	}
+	waitFor := func(cond func() bool) bool {
+		for w := 0; w < 1000; w++ {
+			if cond() {
+				return true
+			}
+			time.Sleep(5 * time.Millisecond)
+		}
+		return false
+	}
+	key := fmt.Sprintf("node-returns v%d nodes=%d size=%d ticker=%v", cfg.ProtoVersion, nn, cfg.NumConns, cfg.ReconnectInterval > 0)
+	wit := map[string]interface{}{"scenario": key}
+	rounds := 30
+	settled := true
+	for round := 0; round < rounds && settled; round++ {
+		n := cl.Nodes[1+r.Intn(nn-1)]
+		if !waitFor(func() bool { return n.DataConnsOpen() >= cfg.NumConns }) {
+			settled = false
+			break
+		}
+		// stable surplus: more connections than the pool may hold, seen three times 20 ms apart
+		over := 0
+		for k := 0; k < 3; k++ {
+			if n.DataConnsOpen() > cfg.NumConns {
+				over++
+				time.Sleep(20 * time.Millisecond)
+			}
+		}
+		if over == 3 {
+			wit["round"] = round
+			c.Violation("C17:more-connections-than-pool-size", fmt.Sprintf("node %s holds %d data connections of this session, NumConns is %d (after the node came back and %s)", n.IP, n.DataConnsOpen(), cfg.NumConns, "several triggers asked for its pool at once"), wit)
+			break
+		}
+		gocql.VerifHandleNodeEvents(sess, []gocql.VerifNodeEvent{{Change: "DOWN", Host: n.IP, Port: 9042}})
+		if cfg.ReconnectInterval == 0 {
+			// nothing re-creates the pool on its own: every connection of the removed pool has to go
+			if !waitFor(func() bool { return n.DataConnsOpen() == 0 }) {
+				wit["round"] = round
+				wit["open_connections"] = c17openConns(cl)
+				c.Violation("C17:connection-open-after-pool-removed", fmt.Sprintf("%d connections to node %s are still open 5 s after the node was reported down and its pool removed and closed", n.DataConnsOpen(), n.IP), wit)
+				break
+			}
+			c.Add("pool_removals_checked", 1)
+		}
+		triggers := 2 + r.Intn(6)
+		var ready, start int32
+		var wg sync.WaitGroup
+		for k := 0; k < triggers; k++ {
+			wg.Add(1)
+			go func() {
+				defer wg.Done()
+				atomic.AddInt32(&ready, 1)
+				for atomic.LoadInt32(&start) == 0 {
+				}
+				c.Guard("handleNodeUp", func() {
+					gocql.VerifHandleNodeEvents(sess, []gocql.VerifNodeEvent{{Change: "UP", Host: n.IP, Port: 9042}})
+				})
+			}()
+		}
+		for atomic.LoadInt32(&ready) < int32(triggers) {
+			runtime.Gosched()
+		}
+		atomic.StoreInt32(&start, 1)
+		wg.Wait()
+		c.Add("coinciding_up_triggers", int64(triggers))
+		c.Add("node_return_rounds", 1)
+	}
+	if !settled {
+		c.Inconclusive("c17-node-returns", "a pool did not fill within 5 s")
+	}
+	c.Eval(runner.H("c17nodereturns", i, nn, cfg.NumConns, cfg.ReconnectInterval), true)
+	time.Sleep(5 * time.Millisecond)
+	c.Guard("Session.Close", sess.Close)
+	c.Add("closes_checked", 1)
+	openL, leaked := c17awaitClosed(c, cl)
+	if len(openL) > 0 {
+		wit["open_connections"] = openL
+		c.Violation("C17:connection-open-after-close", fmt.Sprintf("%d connections the driver dialled are still open after Session.Close returned (after nodes went down and came back)", len(openL)), wit)
+	}
+	if len(leaked) > 0 {
+		tops := map[string]int{}
+		for _, b := range leaked {
+			tops[topFrameOf(b)]++
+		}
+		var ks []string
+		for k := range tops {
+			ks = append(ks, k)
+		}
+		sort.Strings(ks)
+		c.Violation("C17:goroutine-leak:"+strings.Join(ks, "+"), fmt.Sprintf("%d goroutines are still running driver code after Session.Close returned (%v)", len(leaked), tops), map[string]interface{}{"scenario": key, "goroutines": leaked[:minInt(len(leaked), 4)]})
 	}
 }
